@@ -29,7 +29,7 @@ BASE_DEFS = ["-DCARES_BUILDING_LIBRARY", "-DHAVE_CONFIG_H=1", "-D_GNU_SOURCE",
              "-D_POSIX_C_SOURCE=200809L", "-D_XOPEN_SOURCE=700", "-DNDEBUG", "-DCARES_VERIF"]
 
 CBMC_BASE = ["--unwinding-assertions", "--drop-unused-functions", "--no-malloc-may-fail",
-             "--max-field-sensitivity-array-size", "1024", "--object-bits", "12",
+             "--object-bits", "12",
              "--no-standard-checks", "--bounds-check", "--pointer-check", "--div-by-zero-check",
              "--signed-overflow-check", "--undefined-shift-check", "--pointer-primitive-check",
              "--float-overflow-check", "--nan-check"]
@@ -216,6 +216,9 @@ def build_goto(job, prop, jdir, extra_defs):
 
 def cbmc_cmd(job, gb, extra):
     c = ["cbmc", gb, "--json-ui"] + CBMC_BASE + BACKENDS[job.get("backend", "sat")]
+    # arrays up to this size are tracked element-wise (keeps copied constants constant; DESIGN R1);
+    # harnesses that index byte buffers with SYMBOLIC offsets set a small value instead
+    c += ["--max-field-sensitivity-array-size", str(job.get("fs_array", 1024))]
     c += ["--function", job.get("entry", "harness")]
     if "unwind" in job:
         c += ["--unwind", str(job["unwind"])]
